@@ -9,7 +9,7 @@ Lens == {<<0, 0>>, <<0, 1>>, <<0, 2>>, <<0, 3>>, <<0, 4>>, <<0, 5>>, <<0, 6>>, <
 Ids  == 0..21 \cup {255}
 Subs == 0..5 \cup {255}
 BencBodies == {"valid", "trailing", "dupkeys", "truncated", "nondict", "hugestr", "empty",
-               "deep", "hugeint", "wrongtype", "unknownkeys", "negint"}
+               "deep", "hugeint", "wrongtype", "unknownkeys", "negint", "pexshortflags", "pexoddlen"}
 
 \* every id x every length, whole and cut one byte short
 A == {In(l[1], l[2], id, 0, "filler", cut) : l \in Lens, id \in Ids \ {20}, cut \in {"no", "mid"}}
